@@ -405,7 +405,145 @@ func (u *Unit) runFuncArgs(st *State, args []Value, i int, k func(*State)) {
 //
 //	for e := l.Front(); e != nil; { ...; e = e.Next() | next := e.Next(); l.Remove(e); e = next }
 //
-// Contract clause: "loop k: listiter e in l". Inside invariants: seen(x) for element values already visited.
+// Contract clause: "loop k: listiter(e, l)". The engine checks the shape, then models the loop as: every value held by l
+// is visited exactly once (ghost set `seen` over element values, usable in invariants); on exit every value still in l has
+// been seen. Values pushed onto l itself inside the loop would break that: PushBack/PushFront on l is an obligation.
+// Uses the ghost map listOf (value -> list) maintained by the trusted container/list contracts.
 func (u *Unit) listIterLoop(st *State, x *ast.ForStmt, ls *LoopSpec, id string, c *Ctl, k func(*State)) {
-	u.subsetErr(x.Pos(), "listiter loops are handled by the list model (not yet enabled)")
+	call, ok := ls.ListIter.Expr.(*ast.CallExpr)
+	if !ok || len(call.Args) != 2 {
+		u.subsetErr(x.Pos(), "listiter clause must be listiter(elemVar, listExpr)")
+		return
+	}
+	evName := exprString(call.Args[0])
+	info := u.pkg.TypesInfo
+	// shape
+	init, ok := x.Init.(*ast.AssignStmt)
+	var frontRecv ast.Expr
+	var eObj types.Object
+	if ok && init.Tok == token.DEFINE && len(init.Lhs) == 1 && len(init.Rhs) == 1 {
+		if id0, ok := init.Lhs[0].(*ast.Ident); ok && id0.Name == evName {
+			eObj = info.Defs[id0]
+			if ce, ok := init.Rhs[0].(*ast.CallExpr); ok {
+				if sel, ok := ce.Fun.(*ast.SelectorExpr); ok && sel.Sel.Name == "Front" && len(ce.Args) == 0 {
+					frontRecv = sel.X
+				}
+			}
+		}
+	}
+	condOK := false
+	if be, ok := x.Cond.(*ast.BinaryExpr); ok && be.Op == token.NEQ {
+		if a, ok := be.X.(*ast.Ident); ok && a.Name == evName {
+			if b, ok := be.Y.(*ast.Ident); ok && b.Name == "nil" {
+				condOK = true
+			}
+		}
+	}
+	if frontRecv == nil || eObj == nil || !condOK || x.Post != nil {
+		u.subsetErr(x.Pos(), "loop %s does not have the list traversal shape `for e := l.Front(); e != nil; {...}`", id)
+		return
+	}
+	if exprString(frontRecv) != exprString(call.Args[1]) {
+		u.subsetErr(x.Pos(), "loop %s iterates %s, the contract names %s", id, exprString(frontRecv), exprString(call.Args[1]))
+		return
+	}
+	// every assignment to e in the body is e = e.Next() or e = n with n := e.Next()
+	nextVars := map[types.Object]bool{}
+	isNextOfE := func(e ast.Expr) bool {
+		ce, ok := e.(*ast.CallExpr)
+		if !ok || len(ce.Args) != 0 {
+			return false
+		}
+		sel, ok := ce.Fun.(*ast.SelectorExpr)
+		if !ok || sel.Sel.Name != "Next" {
+			return false
+		}
+		idr, ok := sel.X.(*ast.Ident)
+		return ok && info.ObjectOf(idr) == eObj
+	}
+	shapeOK := true
+	ast.Inspect(x.Body, func(n ast.Node) bool {
+		as, ok := n.(*ast.AssignStmt)
+		if !ok {
+			return true
+		}
+		for i, l := range as.Lhs {
+			idl, ok := l.(*ast.Ident)
+			if !ok || i >= len(as.Rhs) {
+				continue
+			}
+			obj := info.ObjectOf(idl)
+			if as.Tok == token.DEFINE && isNextOfE(as.Rhs[i]) {
+				nextVars[obj] = true
+				continue
+			}
+			if obj == eObj {
+				if isNextOfE(as.Rhs[i]) {
+					continue
+				}
+				if idr, ok := as.Rhs[i].(*ast.Ident); ok && nextVars[info.ObjectOf(idr)] {
+					continue
+				}
+				shapeOK = false
+			} else if nextVars[obj] {
+				shapeOK = false
+			}
+		}
+		return true
+	})
+	if !shapeOK {
+		u.subsetErr(x.Pos(), "loop %s: the element variable is advanced in a way other than e = e.Next() / n := e.Next(); ...; e = n", id)
+		return
+	}
+	g := u.eng.cs.Ghosts["listOf"]
+	if g == nil {
+		u.subsetErr(x.Pos(), "listiter needs the ghost map listOf (specs/list.spec)")
+		return
+	}
+	bodyPos := x.Body.Lbrace + 1
+	ev := u.ev(st, x.Pos())
+	lv := ev.expr(frontRecv)
+	seenSort := arraySort(SRef, SBool)
+	empty := fmt.Sprintf("((as const %s) false)", seenSort)
+	mk := func(seen string) map[string]Value { return map[string]Value{"seen": {K: vScalar, T: seen, S: seenSort}} }
+	u.checkInvariants(st, ls, id, "inv_entry", bodyPos, mk(empty))
+	u.havocLoop(st, x.Body, nil, ls, bodyPos)
+	seen := u.fresh("seen", seenSort)
+	u.assumeInvariants(st, ls, id, bodyPos, mk(seen))
+	u.eng.noteMeta(u, "list traversal idiom: Front/Next visit every value held by the list exactly once, in order (trusted container/list model)")
+	if !u.pathBudget() {
+		return
+	}
+	sb := st.clone()
+	e := u.fresh("elem", SRef)
+	sb.assume(not(app("=", e, "nil")))
+	eVal := scalar(e, SRef, eObj.Type())
+	u.assumeAllocated(sb, eVal)
+	e2 := u.ev(sb, x.Pos())
+	v := e2.selectFrom(eVal, "Value", nil)
+	lo := e2.ghostVar(g)
+	sb.assume(app("=", app("select", lo.T, v.T), lv.T))
+	sb.assume(not(app("select", seen, v.T)))
+	sb.assume(not(app("=", v.T, "nil")))
+	sb.env[eObj] = eVal
+	c2 := c.with()
+	c2.label = ""
+	endIter := func(se *State) {
+		u.checkInvariants(se, ls, id, "inv_pres", bodyPos, mk(app("store", seen, v.T, "true")))
+	}
+	c2.cont[""] = endIter
+	c2.brk[""] = k
+	if c.label != "" {
+		c2.cont[c.label] = endIter
+		c2.brk[c.label] = k
+	}
+	u.iterLists = append(u.iterLists, lv.T)
+	u.block(sb, x.Body.List, c2, endIter)
+	u.iterLists = u.iterLists[:len(u.iterLists)-1]
+	// exit: everything still held by l has been seen
+	e3 := u.ev(st, x.Pos())
+	lo2 := e3.ghostVar(g)
+	st.assume(fmt.Sprintf("(forall ((v Ref)) (! (=> (= (select %s v) %s) (select %s v)) :pattern ((select %s v))))", lo2.T, lv.T, seen, lo2.T))
+	delete(st.env, eObj)
+	k(st)
 }
